@@ -2,6 +2,7 @@ package main
 
 import (
 	"fmt"
+	"time"
 )
 
 type timerObj struct {
@@ -227,6 +228,9 @@ func (e *Exec) nowSec() *Term {
 	e.assume(tBVCmp("bvuge", n, lo))
 	e.assume(tBVCmp("bvult", n, mkBV(64, 4102444800)))
 	e.lastNow = n
+	// replay runs against the real clock: prefer models whose instants are "about now"
+	real := uint64(time.Now().Unix())
+	e.nice = append(e.nice, tAnd(tBVCmp("bvuge", n, mkBV(64, real+5)), tBVCmp("bvule", n, mkBV(64, real+90))))
 	e.inputs = append(e.inputs, inputRec{Name: n.Name, T: n, Kind: "u64"})
 	return n
 }
